@@ -20,12 +20,13 @@ const ottoPath = "github.com/robertkrimen/otto"
 
 // Ctx is the loaded, type-checked program and the lazily built derived forms.
 type Ctx struct {
-	RepoDir string
-	Fset    *token.FileSet
-	Pkgs    map[string]*packages.Package // by import path
-	All     []*packages.Package          // packages of the otto module only
-	Prog    *ssa.Program
-	SSAPkgs map[string]*ssa.Package
+	funcNames map[string]bool
+	RepoDir   string
+	Fset      *token.FileSet
+	Pkgs      map[string]*packages.Package // by import path
+	All       []*packages.Package          // packages of the otto module only
+	Prog      *ssa.Program
+	SSAPkgs   map[string]*ssa.Package
 
 	funcDecls map[*types.Func]*ast.FuncDecl
 	parents   map[ast.Node]ast.Node
